@@ -26,6 +26,16 @@ def store (h : Heap) (b i : Nat) (x : Int) : Heap :=
   | none => h
 
 /-- Go's 64-bit `int` arithmetic -/
-def wrapI (x : Int) : Int := wrapS 64 x
+def wrapI (x : Int) : Int := -9223372036854775808 + (9223372036854775808 + x) % 18446744073709551616
+-- (the literals are written on the left on purpose: with a literal as the *second* argument of `+`,
+--  Lean's definitional unfolding recurses on the literal and equation lemmas of the recursive
+--  functions that mention `wrapI` cannot be generated)
+
+theorem wrapI_eq_wrapS (x : Int) : wrapI x = wrapS 64 x := by
+  unfold wrapI wrapS
+  have e1 : (2:Int)^(64-1) = 9223372036854775808 := by decide
+  have e2 : (2:Int)^64 = 18446744073709551616 := by decide
+  rw [e1, e2, Int.add_comm x]
+  omega
 
 end Sig
